@@ -28,6 +28,9 @@ def oracle(g, start):
             res.append(("sample-labelled-invalid", "string %r is labelled invalid" % s))
         if len(s) <= 24 and not GM.derivable(g, start, s):
             res.append(("not-derivable", "generated string %r is not derivable from the start symbol" % s))
+    d2 = GM.second_run_differs(g, start)
+    if d2:
+        res.append(("second-enumeration-differs", d2))
     joined = "".join(s for _, s in pairs if s is not None)
     for t in GM.reachable_terminals(g, start):
         if t not in joined:
